@@ -21,7 +21,7 @@ CHECKS = {
     cat="proof",
     text="Theorems over R about the 1D step model (props/C02.v): every cooling step changes the heat content by EXACTLY dt (K (T_shelf - T_0) + q_e) for any number of grid points (telescoping); the "
          "ghost points carry exactly the boundary fluxes; nucleation is adiabatic (cp m (T' - T) = Dh m_ice(T')); the apparent heat capacity cp*BETA is the derivative of the equilibrium enthalpy. "
-         "PARTIAL: the solidification update is non-conservative and the 2D model (model/Sn2D.v, one-step correspondence) has no balance theorem: their balance is audited on the implementation (15 % / 10 %). Tied to the code by one-step "
+         "PARTIAL: the solidification update is non-conservative (C02_solid_step_exact_balance_refuted: an insulated field with a conductivity jump changes its heat content in one step of the faithful model) and the 2D model (model/Sn2D.v, one-step correspondence) has no balance theorem: their balance is audited on the implementation (15 % / 10 %). Tied to the code by one-step "
          "binary64 correspondence of the 1D model on saved steps and by evaluating the exact cooling balance on every saved step (observed error 3e-11).",
     ref="6 C02", technique="Rocq proof over R (telescoping sums, field, Coquelicot derivative) + one-step float correspondence + enthalpy audits",
     note=TB % "c02" + "2D (shelf/jacket): one-step correspondence + audit; enthalpy increments use the scheme's constant latent heat."),
